@@ -395,10 +395,20 @@ def p_window_does_not_fit(c):
     return out
 
 
+CASE_VARIANTS = {
+    "naive": ["Last", "MEAN", "Drift"], "reduction_strategy": ["Direct", "RECURSIVE", "DirRec"],
+    "reduction_scitype": ["Tabular-Regressor", "TIME-SERIES-REGRESSOR", "Infer"], "evaluate": ["Refit", "UPDATE", "Update", "rEfIt"],
+    "aggfunc": ["Mean", "MEDIAN", "Max"],
+}
+
+
 def p_unknown_name(c):
     y = mk_y(c)
     where = c["where"]
     bad = c["bad_name"]
+    if isinstance(bad, int):
+        # a valid name of this entry point in another letter case is an unknown name too
+        bad = CASE_VARIANTS[where][bad % len(CASE_VARIANTS[where])]
     out = []
     if where == "naive":
         f = NaiveForecaster(strategy=bad)
@@ -522,7 +532,7 @@ def cases(draw, pair):
         c["strategy_r"] = draw(st.sampled_from(["direct", "recursive", "multioutput", "dirrec"]))
     elif pair == "unknown_name":
         c["where"] = draw(st.sampled_from(["naive", "reduction_strategy", "reduction_scitype", "evaluate", "aggfunc"]))
-        c["bad_name"] = draw(st.sampled_from(["", "Last", "mean ", "nope", "refit2", "avg", "MEAN"]))
+        c["bad_name"] = draw(st.sampled_from(["", "Last", "mean ", "nope", "refit2", "avg", "MEAN", 0, 1, 2, 3]))
     else:
         c["composite"] = draw(st.sampled_from(["ensemble", "stack", "multiplex", "pipeline"]))
         c["fault"] = draw(st.sampled_from(["duplicate_names", "dunder_name", "name_is_ctor_arg", "empty_list",
@@ -575,7 +585,7 @@ def enum_table(tier):
             continue
         table.append({"pair": "window_does_not_fit", "where": w, "excess": ex, "wl_small": ws, "strategy_r": sr})
     for w, b in itertools.product(["naive", "reduction_strategy", "reduction_scitype", "evaluate", "aggfunc"],
-                                  ["", "Last", "mean ", "nope", "refit2", "avg", "MEAN"]):
+                                  ["", "Last", "mean ", "nope", "refit2", "avg", "MEAN", 0, 1, 2, 3]):
         table.append({"pair": "unknown_name", "where": w, "bad_name": b})
     for k, fl in itertools.product(["ensemble", "stack", "multiplex", "pipeline"],
                                    ["duplicate_names", "dunder_name", "name_is_ctor_arg", "empty_list", "non_forecaster_member",
